@@ -18,7 +18,7 @@ def run(chk):
         if _ % 4 == 3:      # one very thin (or very wide) side: the grid scales with the box
             t = rng.randrange(n); a = rng.choice([1e-9, 0.0, 5.0, -2.0]); w = rng.choice([4e-9, 1e-7, 3e-6, 1e7])
             lo[t], hi[t] = a, a + w
-        case = {'n': n, 'lo': lo, 'hi': hi, 'objective': H.random_objective(rng, n, lo=lo, hi=hi), 'density_type': 'numpy' if _ % 5 == 4 else 'int', 'r': round(rng.uniform(1.5, 4), 2), 'eps': rng.choice([1e-9, 1e-5, 5e-4, 1e-3, 0.01]),
+        case = {'n': n, 'lo': lo, 'hi': hi, 'objective': H.random_objective(rng, n, lo=lo, hi=hi), 'density_type': 'numpy' if _ % 5 == 4 else ('assign' if _ % 5 == 2 else 'int'), 'r': round(rng.uniform(1.5, 4), 2), 'eps': rng.choice([1e-9, 1e-5, 5e-4, 1e-3, 0.01]),
                 'iters': rng.choice([12, 25, 40]), 'density': m}
         fails = O.guarded(O.c20, case)
         chk.evaluations += case['iters']
